@@ -174,6 +174,11 @@ pub fn load_findings() -> Vec<Finding> {
     out
 }
 
+/// The description of a finding without its property= / sig= tokens.
+fn finding_text(f: &Finding) -> String {
+    f.text.split_whitespace().filter(|t| !t.starts_with("property=") && !t.starts_with("sig=")).collect::<Vec<_>>().join(" ")
+}
+
 fn nshards() -> usize {
     std::env::var("LVMC_SHARDS")
         .ok()
@@ -275,7 +280,7 @@ pub fn run_check(engine: &dyn Engine, tier: Tier) -> i32 {
     for v in &viols {
         if let Some(f) = is_known(&v.sig) {
             if known_printed.insert(v.sig.clone()) {
-                println!("KNOWN-FINDING: property={} {}", prop, f.text);
+                println!("KNOWN-FINDING: property={} {}", prop, finding_text(f));
             }
         }
     }
@@ -305,7 +310,7 @@ pub fn run_check(engine: &dyn Engine, tier: Tier) -> i32 {
             // replays as a known finding (the first run observed it through a different symptom)
             let f = is_known(sigs[0].as_deref().unwrap()).unwrap();
             if known_printed.insert(f.sig.clone()) {
-                println!("KNOWN-FINDING: property={} {}", prop, f.text);
+                println!("KNOWN-FINDING: property={} {}", prop, finding_text(f));
             }
         } else if sigs.iter().all(|s| s.is_none()) && ["hang", "no-answer", "no-completion", "no-response", "nocomplete"].iter().any(|k| v.sig.contains(k)) {
             // a call missed its deadline once and completes on both replays (with the long deadline):
